@@ -190,6 +190,7 @@ pub enum Res {
     None,
     State(Vec<u8>, usize),
     Text(String),
+    Probe(usize, usize, usize),
     Unsupported,
 }
 
@@ -215,6 +216,7 @@ impl fmt::Display for Res {
             Res::None => f.write_str("none"),
             Res::State(b, p) => write!(f, "state {} {}", hex(b), p),
             Res::Text(s) => write!(f, "text {}", hex(s.as_bytes())),
+            Res::Probe(b, a, n) => write!(f, "probe {} {} {}", b, a, n),
             Res::Unsupported => f.write_str("unsupported"),
         }
     }
@@ -283,6 +285,30 @@ pub fn pure_op(op: &[String], rs: &[Res]) -> Option<Res> {
         }
         _ => None,
     }
+}
+
+/// C17 drop probe: move `obj` into raw storage, look for each secret (any 8-byte window of it, or the
+/// whole secret when shorter) in the object's bytes, run its destructor in place, look again.
+/// Result: `probe <secrets present before> <secrets present after> <object size>`.
+pub fn drop_probe<T>(obj: T, secrets: &[Vec<u8>]) -> Res {
+    use core::mem::{MaybeUninit, size_of};
+    let mut slot = MaybeUninit::<T>::new(obj);
+    let n = size_of::<T>();
+    let p = slot.as_mut_ptr() as *const u8;
+    let snap = |p: *const u8| -> Vec<u8> { (0..n).map(|i| unsafe { core::ptr::read_volatile(p.add(i)) }).collect() };
+    let present = |mem: &[u8]| -> usize {
+        secrets
+            .iter()
+            .filter(|s| {
+                let win = s.len().min(8);
+                win >= 4 && s.windows(win).any(|w| mem.windows(win).any(|m| m == w))
+            })
+            .count()
+    };
+    let before = snap(p);
+    unsafe { core::ptr::drop_in_place(slot.as_mut_ptr()) };
+    let after = snap(p);
+    Res::Probe(present(&before), present(&after), n)
 }
 
 pub fn read_cases(path: &str) -> Vec<Case> {
